@@ -344,8 +344,9 @@ type activity struct {
 
 func (e *c04Env) snapshot(p *ProxyInst) activity {
 	a := activity{dials: p.Dials.Len()}
+	// what the proxy did on behalf of a request: its own dial log, and the bytes the origins received. Bare accepts at
+	// the origins are not counted: anybody on this machine may connect to a loopback port.
 	for _, pe := range []*Peer{e.local, e.named, e.tnamed} {
-		a.accepts += pe.Accepts()
 		a.bytes += pe.BytesIn()
 	}
 	return a
